@@ -17,6 +17,7 @@
 
 import abc
 import logging
+import threading
 import uuid
 from typing import Dict, List, TYPE_CHECKING
 
@@ -57,6 +58,7 @@ class TracepointConfigService:
         self._last_update = 0
         self._task_handler = None
         self._listeners: List[ConfigUpdateListener] = []
+        self._update_lock = threading.Lock()
 
     def update_no_change(self, ts):
         """
@@ -113,12 +115,17 @@ class TracepointConfigService:
         :param old_config: the old config
         :param new_config: the new config
         """
-        listeners_copy = self._listeners.copy()
-        for listeners in listeners_copy:
-            try:
-                listeners.config_change(ts, old_hash, current_hash, old_config, new_config + self._custom)
-            except Exception:
-                logging.exception("Error updating listener %s", listeners)
+        # updates are processed on a thread pool and can overtake each other, so always tell the listeners about
+        # the config as it is now, not as it was when this update was submitted (that can already be out of date)
+        with self._update_lock:
+            current_hash = self._current_hash
+            new_config = self._tracepoint_config
+            listeners_copy = self._listeners.copy()
+            for listeners in listeners_copy:
+                try:
+                    listeners.config_change(ts, old_hash, current_hash, old_config, new_config + self._custom)
+                except Exception:
+                    logging.exception("Error updating listener %s", listeners)
 
     def add_listener(self, listener: ConfigUpdateListener):
         """
